@@ -81,7 +81,11 @@ def main():
     # ---- simulation
     scs = []
     for _ in range(n):
-        s = simgen.gen_scenario(rng, {"nmarkets": [1, 2, 3], "nstrats": [1, 2, 3], "p_close": 0.0, "max_upd": 7, "no_remove": True, "p_remove": 0.0, "p_inplay": 0.0})
+        # half of the runs replay their markets TOGETHER (one event group, overlapping times): a strategy's runner contexts of different markets
+        # are then created interleaved, and each market is released while the others are still alive
+        together = rng.random() < 0.5
+        s = simgen.gen_scenario(rng, dict({"nmarkets": [1, 2, 3], "nstrats": [1, 2, 3], "p_close": 0.0, "max_upd": 7, "no_remove": True, "p_remove": 0.0, "p_inplay": 0.0},
+                                          **({"nmarkets": [2, 3], "group": True, "same_time": True, "p_place": 0.8, "min_upd": 5} if together else {})))
         s["clients"] = s["clients"] * 1
         for m in s["markets"]:
             last = m["updates"][-1]
